@@ -407,20 +407,62 @@ func sweepHookOpts(prop string, keep func(o *Obligation) bool, frames bool) prop
 				}
 				sort.Slice(ifaceCtrs, func(i, j int) bool { return ifaceCtrs[i].Key < ifaceCtrs[j].Key })
 			}
-			g := c.e.verifyWith(fn, ctr, opts, func(g *gen) {
+			var skip map[string]bool
+			setup := func(g *gen) {
 				g.astValid = true
 				g.nilArgs = true
 				g.ifaceCtrs = ifaceCtrs
+				g.skipCand = skip
 				if frames {
 					g.sweepFrames = prop
 				}
 				if explicit && ctr.NoSafety {
 					g.options.safety = true // the sweep is where the safety obligations of nosafety functions are generated
 				}
-			})
+			}
+			g := c.e.verifyWith(fn, ctr, opts, setup)
+			var droppedCand []job
+			if frames {
+				// candidate invariants: keep the ones that are inductive, re-verify without the others (their failed
+				// obligations stay in the job list: on the unchanged tree they are part of the frontier)
+				for pass := 0; pass < 3; pass++ {
+					var cj []job
+					for _, o := range g.obls {
+						if strings.HasPrefix(o.Label, "local-slice-stays-local ") {
+							cj = append(cj, job{g, o})
+						}
+					}
+					if len(cj) == 0 {
+						break
+					}
+					dischargeAll(cj, 3000, false)
+					failed := false
+					for _, j := range cj {
+						if j.o.Result != "unsat" {
+							if skip == nil {
+								skip = map[string]bool{}
+							}
+							parts := strings.SplitN(j.o.Kind, "/", 2)
+							skip[parts[0]+"/"+j.o.Label] = true
+							droppedCand = append(droppedCand, j)
+							failed = true
+						}
+					}
+					if !failed {
+						break
+					}
+					gOld := g
+					g = c.e.verifyWith(fn, ctr, opts, setup)
+					_ = gOld
+				}
+			}
+			c.jobs = append(c.jobs, droppedCand...)
 			c.addGenNoCover(g, func(o *Obligation) bool {
 				if frames {
 					if o.Kind == "frame" || strings.HasPrefix(o.Kind, "contract/assigns") {
+						return true
+					}
+					if strings.HasPrefix(o.Kind, "loop#") && strings.HasPrefix(o.Label, "local-slice-stays-local ") {
 						return true
 					}
 					if (o.Kind == "post" || strings.HasPrefix(o.Kind, "loop#")) && strings.HasPrefix(o.Label, "owned-") {
